@@ -17,6 +17,9 @@ accepted by a checker).  `ValueError` mirrors the slack-size guard of the code. 
   (`LinCert.feasibleFM` on the full LP `rectSys` with margin `tau`), or `ValueError`.
 * `rectcert <W> <l1> <u1> <l2> <u2> <slack> <tau>` → the raw certificate of the search on the reduced
   system: `witness <d>` / `farkas <y>` / `ValueError` (re-checked independently by the harness).
+* `boxrows <l> <u>` → `<A>|<b>` : the matrix form `A z ≥ b` of the box `[l, u]` exactly as it enters `rectSys`
+  (`axisRows m 1 0 l ++ axisRows m (−1) 0 (−u)`, i.e. `A = [I; −I]`, `b = [l; −u]`): the model's mirror of
+  `hyperrectangle_get_region_matrix(lower, upper)`.
 * `ball <W> <c1> <a1> <c2> <a2> <slack> <tau>` → `v₊,v₀,v₋` : `Covered.ballIsCoveredTol` (Σ = I), or
   `ValueError`.
 * `ballproj <W> <c1> <c2> <slack>` → `<x>|<lam>` nearest point of `{d | W d ≥ t}` to `c2 − c1` with
@@ -82,6 +85,12 @@ def handle (args : List String) : String :=
         | .witness d => "witness " ++ fmtVec d
         | .farkas y => "farkas " ++ fmtVec y
     | _, _, _, _, _, _, _ => bad
+  | ["boxrows", l, u] =>
+    match parseVec l, parseVec u with
+    | some l, some u =>
+      let rows := axisRows l.length 1 0 l ++ axisRows l.length (-1) 0 (vneg u)
+      fmtMat (rows.map (·.a)) ++ "|" ++ fmtVec (rows.map (·.b))
+    | _, _ => bad
   | ["ball", w, c1, a1, c2, a2, s, tau] =>
     match parseMat w, parseVec c1, parseRat a1, parseVec c2, parseRat a2, parseVec s, parseRat tau with
     | some W, some c1, some a1, some c2, some a2, some s, some tau =>
